@@ -220,6 +220,7 @@ type Sim struct {
 	gstDone bool
 
 	authentic []*Payload // every payload ever broadcast by anyone (adversary's library)
+	trigSeen  map[hv]bool // event-triggered faults: epochs whose first commit / change view was already seen
 	accepts   map[uint32][]acceptRec
 	manual    bool // scripts: broadcasts are recorded but not delivered
 	stopped   bool
@@ -639,6 +640,7 @@ func (s *Sim) send(a *Node, p *Payload) {
 	if s.manual {
 		return
 	}
+	s.triggered(a, p)
 	limit := -1
 	if a.crashAfterSends >= 0 {
 		limit = a.crashAfterSends
@@ -660,6 +662,54 @@ func (s *Sim) send(a *Node, p *Payload) {
 		s.sendTo(a, b, p, st)
 		sent++
 	}
+}
+
+// triggered places a fault exactly where in-flight state was just created: at the first
+// (pre)commit of a height and at the first change-view request of a view.
+func (s *Sim) triggered(a *Node, p *Payload) {
+	if !s.sc.TriggerCut || s.postGST() {
+		return
+	}
+	var key hv
+	switch p.T {
+	case dbft.CommitType, dbft.PreCommitType:
+		key = hv{p.H, 200}
+	case dbft.ChangeViewType:
+		key = hv{p.H, p.V}
+	default:
+		return
+	}
+	if s.trigSeen == nil {
+		s.trigSeen = map[hv]bool{}
+	}
+	if s.trigSeen[key] {
+		return
+	}
+	s.trigSeen[key] = true
+	if !s.tape.Chance(SFault, 1, 3) {
+		return
+	}
+	dur := s.tape.Range(SFault, 1, 24) * int64(s.sc.TPB) / 4
+	switch s.tape.Draw(SFault, 3) {
+	case 0: // the sender is cut off right now: nobody (or only some) gets this very payload
+		s.cut[a.id] = true
+		s.fault("trigger:isolate_sender")
+	case 1: // everybody else is cut off from each other
+		s.cutX = s.sc.Factions
+		if !s.cutX {
+			for i := range s.cut {
+				if i != a.id && s.tape.Chance(SFault, 1, 2) {
+					s.cut[i] = true
+				}
+			}
+		}
+		s.fault("trigger:cut_others")
+	case 2: // the sender's event loop stalls right after the send
+		a.stallUntil = s.now + dur
+		s.fault("trigger:stall_sender")
+		return
+	}
+	s.after(dur, &Event{Kind: EvPartHeal})
 }
 
 func (s *Sim) sendTo(a, b *Node, p *Payload, st Stream) {
